@@ -2,34 +2,40 @@ package main
 
 import (
 	"fmt"
-	"os"
-	"time"
 
 	badger "github.com/dgraph-io/badger/v4"
 )
 
 func main() {
-	dir := "/verif/.work/probe"
-	os.RemoveAll(dir)
-	os.MkdirAll(dir, 0o755)
-	o := badger.DefaultOptions(dir).WithLogger(nil)
-	o.NumCompactors = 0
-	db, _ := badger.Open(o)
-	snap := db.NewTransaction(false)
-	fmt.Println("snap readTs", snap.ReadTs())
-	for i := 0; i < 5; i++ {
-		db.Update(func(txn *badger.Txn) error { return txn.Set([]byte("k"), []byte("v")) })
+	for _, inmem := range []bool{true, false} {
+		o := badger.DefaultOptions("/verif/.work/probe2").WithLogger(nil)
+		if inmem {
+			o = badger.DefaultOptions("").WithInMemory(true).WithLogger(nil)
+		}
+		db, err := badger.Open(o)
+		if err != nil {
+			panic(err)
+		}
+		for _, k := range []string{"a1", "a2", "b1", "c1"} {
+			db.Update(func(txn *badger.Txn) error { return txn.Set([]byte(k), []byte("v")) })
+		}
+		fmt.Println("inmem", inmem, "DropPrefix(a1):", db.DropPrefix([]byte("a1")))
+		db.View(func(txn *badger.Txn) error {
+			for _, k := range []string{"a1", "a2", "b1", "c1"} {
+				_, err := txn.Get([]byte(k))
+				fmt.Println("  ", k, err)
+			}
+			return nil
+		})
+		db.Update(func(txn *badger.Txn) error { return txn.Set([]byte("a2"), []byte("v2")) })
+		fmt.Println("  second DropPrefix(c):", db.DropPrefix([]byte("c")))
+		db.View(func(txn *badger.Txn) error {
+			for _, k := range []string{"a1", "a2", "b1", "c1"} {
+				_, err := txn.Get([]byte(k))
+				fmt.Println("  ", k, err)
+			}
+			return nil
+		})
+		db.Close()
 	}
-	fmt.Println("discard with snap open", db.VerifDiscardTs())
-	snap.Discard()
-	time.Sleep(10 * time.Millisecond)
-	fmt.Println("discard after snap closed", db.VerifDiscardTs())
-	db.Update(func(txn *badger.Txn) error { return txn.Set([]byte("k"), []byte("v")) })
-	time.Sleep(10 * time.Millisecond)
-	fmt.Println("discard after one more commit", db.VerifDiscardTs())
-	db.View(func(txn *badger.Txn) error { return nil })
-	time.Sleep(10 * time.Millisecond)
-	fmt.Println("discard after a view", db.VerifDiscardTs())
-	db.Close()
-	os.RemoveAll(dir)
 }
